@@ -7,22 +7,54 @@ CHECKS = {
     'C16': {
         'level': 'exploration',
         'engine': 'asyncprims',
-        'technique': DST + ': seeded job schedules (think/hold times on a 1/1024 s grid, so arrivals, releases and '
+        'technique': DST + ': (1) seeded job schedules (think/hold times on a 1/1024 s grid, so arrivals, releases and '
                            'wake-ups collide in one loop iteration) against the real FIFOWeightedSemaphore on a '
                            'virtual-time asyncio loop; safety and arrival-order oracles at every acquire return, '
-                           'head-of-line liveness at every instant the loop runs out of work',
+                           'head-of-line liveness at every instant the loop runs out of work; (2) the semaphore in its '
+                           'place of use: the real batch worker (worker.py re-executed per run: Worker, DockerJob, '
+                           'JVMJob, Container, JVM, JVM pools) receives seeded create / delete requests while its '
+                           'operating-system seam (file system, shell commands, crun processes, the JVM side of the '
+                           'entryway socket, image pulls, cloud storage, driver end-points) is simulated with seeded '
+                           'durations and injected failures; the jobs\' entries into and exits from their '
+                           '`async with worker.cpu_sem(...)` body are observed and judged against the capacity, the '
+                           'arrival order and worker.cpu_sem.value at every loop step',
         'design_ref': 'DESIGN.md section 6 (C16), section 5.2',
         'level_text': 'Seeded exploration of acquire/hold/release interleavings of the real worker CPU semaphore, used '
                       'through `async with sem(weight)` as the worker does. Sum of held weights is checked at every '
                       'event, return order against invocation order (with a reference FIFO model deciding only whether '
                       'an acquire has already been granted), and the earliest pending acquire must not fit into the '
-                      'free capacity whenever the loop is idle and at quiescence. Samples schedules; not a proof.',
+                      'free capacity whenever the loop is idle and at quiescence. A second scenario explores the '
+                      'callers: 2-8 docker and JVM jobs with core requests that fit the worker one by one but not '
+                      'together run through the real Worker.create_job / run_job / delete_job, DockerJob.run and '
+                      'JVMJob.run with their cleanup and error handlers (job deleted before it starts, while it '
+                      'waits for the semaphore, while its container or JVM executes, during cleanup, twice; container '
+                      'time-outs, user errors, JVM deaths and reconnects, failing shell commands, uploads and driver '
+                      'calls); the cores held by the jobs inside their semaphore block never exceed CORES*1000 mcpu, '
+                      'cpu_sem.value stays within [0, capacity] after every loop step, equals capacity minus the '
+                      'held cores whenever the loop is idle, and is back at capacity with an empty queue whenever no '
+                      'job holds or awaits cores. Samples schedules; not a proof.',
         'level_note': 'Trusts CPython asyncio Event/Task semantics on the custom loop and FIFO ready callbacks; '
                       'capacity <= 12 (16 thorough), <= 6 (8) jobs x <= 3 (4) rounds; no cancellation of waiters '
-                      '(outside the quantifier).',
-        'scenarios': [{'module': 'worlds.prims.fifosem', 'quick': 150000, 'thorough': 1000000}],
+                      '(outside the quantifier). Worker scenario: worker.py runs for real down to its calls of os / '
+                      'shutil / open / tempfile, check_shell*, asyncio.create_subprocess_exec, '
+                      'asyncio.open_unix_connection, Image._pull_image, RouterAsyncFS, the cloud worker API, '
+                      'ResourceUsageMonitor and the driver HTTP session, which are stand-ins (no docker, crun, JVM, '
+                      'network namespaces or cloud are really exercised); aiodocker / aiorwlock / async_timeout are '
+                      'fakes; Worker.run (web server, activation, idle shutdown) and worker shutdown are not run; '
+                      'the entry into the semaphore block is recognised by the assignment of job.start_time; CORES in '
+                      '{1, 2, 4, 8}, <= 8 (10) jobs, <= 2 deletes per job.',
+        'scenarios': [{'module': 'worlds.prims.fifosem', 'quick': 150000, 'thorough': 1000000},
+                      # the semaphore in its place of use: the worker's job lifecycle (callers of acquire / release)
+                      # (~18 ms CPU per run: ~25 s on 16 idle cores; the wall cap only matters on a loaded machine)
+                      {'module': 'worlds.worker.cpusem', 'quick': 20000, 'thorough': 160000,
+                       'seed_offset': 16_000_000, 'wall_cap': {'quick': 900.0, 'thorough': 3600.0}}],
         'expected_probes': ['waiter_queued', 'waiter_queued_behind_head', 'fastpath_overtakes_granted_waiter',
-                            'multi_grant_release', 'exit_by_exception'],
+                            'multi_grant_release', 'exit_by_exception',
+                            'job_waited_for_cpu_sem', 'arrival_fits_but_queues_behind_head',
+                            'delete_waiting_for_cpu_sem', 'delete_in_body_running', 'delete_twice',
+                            'deleted_job_enters_body_after_waiting', 'jvm_final_state_cancelled',
+                            'jvm_cancel_request_received', 'jvm_final_state_failed', 'docker_final_state_succeeded',
+                            'jvm_run_raised_IncompleteJVMCleanupError', 'docker_run_raised_CalledProcessError'],
     },
     'C24': {
         'level': 'exploration',
